@@ -14,6 +14,7 @@ import (
 	"net/http"
 	"strings"
 	"sync"
+	"time"
 
 	"github.com/tmpim/casket"
 	"github.com/tmpim/casket/caskethttp/httpserver"
@@ -39,6 +40,9 @@ type Spec struct {
 	Panic  string      `json:"panic,omitempty"` // "before" | "abort-before" | "after" | ""
 	// ReadBody > 0: read the request body with that read size and report.
 	ReadBody int `json:"readbody,omitempty"`
+	// DelayMs: the handler takes that long before it does anything (a slow
+	// backend or disk).
+	DelayMs int `json:"delay,omitempty"`
 }
 
 // Encode renders the header value.
@@ -156,6 +160,9 @@ func (h handler) ServeHTTP(w http.ResponseWriter, r *http.Request) (int, error) 
 				break
 			}
 		}
+	}
+	if s.DelayMs > 0 {
+		time.Sleep(time.Duration(s.DelayMs) * time.Millisecond)
 	}
 	if s.Panic == "before" {
 		panic("verifprobe: scripted panic before writing")
